@@ -46,6 +46,19 @@ def hasBadProp (ops : Ops DT Val) : DT → List (Name × Val) → Bool
        | .ok dt' => hasBadProp ops dt' rest
        | _ => false)
 
+/-- "each configured … parameter property … is applied": the parameter's own properties (readonly, visibility, export,
+group, description, …) after the cfg — every configured one set to its value converted by the property's datatype, in
+the order written, the others as the class has them -/
+def ownAfter (ops : Ops DT Val) : List (Name × Val) → List (Name × Val) → List (Name × Val)
+  | own, [] => own
+  | own, (k, v) :: rest =>
+    if isValueKey k then ownAfter ops own rest
+    else match ops.ownProp k with
+      | some f => (match f v with
+        | some v' => ownAfter ops (setKey k v' own) rest
+        | none => own)                      -- erroneous entry: the module is rejected
+      | none => ownAfter ops own rest
+
 def cfgOf (name : Name) (cfg : Cfg Val) : Option (List (Name × Val)) :=
   match lookup name cfg with
   | some (.acc items) => some items
@@ -216,10 +229,10 @@ def paramAppliedB (ops : Ops DT Val) (g : Glue DT Val) (pd : ParamDesc DT Val) (
      | none => match givenFor "default" dflt items with
        | some d => optB g.beqVal o.value (ops.convert dt' d)
        | none => true) &&
-    -- configured own properties
-    (o.described.isNone || items.all fun kv => match ops.ownProp kv.1 with
-      | some f => if kv.1 = "readonly" || kv.1 = "visibility" || kv.1 = "group" then
-          optB g.beqVal (lookup kv.1 o.own) (f kv.2) else true
+    -- own properties as described: the class values with the configured ones set (`ownAfter`)
+    (o.described.isNone || ["readonly", "visibility", "group"].all fun k =>
+      match lookup k (ownAfter ops pd.own items) with
+      | some v => optB g.beqVal (lookup k o.own) (some v)
       | none => true) &&
     -- export: described under the configured name, reachable under it and under no other
     (let ex := g.exportName pd.name (match lookup "export" items with
